@@ -9,6 +9,7 @@ CONSTANTS
   Sinces = {0, 1, 2, 3, 4, 5}
   OpenCids = {"o1", "o2"}
   MaxTrades = 100
+  ClockSlack = FALSE
   IdSlack = 0
   MaxLen = 16
 INVARIANT Emit
